@@ -20,8 +20,6 @@ func run(c *hx.Ctx) {
 		c21(c)
 	case "C23":
 		c23(c)
-	case "probe":
-		probe(c)
 	default:
 		panic("unknown property " + c.Prop)
 	}
